@@ -74,10 +74,14 @@ def uniform_cubic_integrals(chk):
     chk.ob("Q3-uniform-cubic", ifs[0], "periodic uniform cubic: dx for the n functions, 0 for the wrapped copies", okper,
            "every periodic uniform cubic B-spline integrates to dx; the wrapped copies carry nothing extra" if okper else
            "periodic uniform-cubic integrals changed", file=U.SPLINES, func="BSplines._build_integrals")
-    okint = contains(cu, "self._integrals[d:-d] = dx")
-    chk.ob("Q3-uniform-cubic", ifs[0], "clamped uniform cubic: interior integrals = dx", okint,
-           "B-splines whose support lies inside the domain integrate to dx (cardinal cubic)" if okint else
-           "interior integrals of the uniform cubic case changed", file=U.SPLINES, func="BSplines._build_integrals")
+    # clamped uniform cubic: every function starts from the full integral dx and loses what lies outside the domain, at both ends
+    okint = contains(cu, "self._integrals[:] = dx")
+    old_int = contains(cu, "self._integrals[d:-d] = dx")
+    chk.pat("Q3-uniform-cubic", ifs[0], "clamped uniform cubic: all integrals start from dx", okint,
+            "a cardinal cubic B-spline integrates to dx; boundary functions lose the part outside the domain (next rule)",
+            ("only the interior entries `[d:-d]` are set to dx: with fewer than three cells there is no interior and a function that "
+             "reaches both boundaries gets one end's value only") if old_int and not okint else None,
+            file=U.SPLINES, func="BSplines._build_integrals")
     # auxiliary construction: knots = linspace(x0, x0 + 11 dx, 12), test point = x0 + 4 dx  (same origin x0)
     xmin, dx = sp.symbols("xmin dx", real=True)
     kn = [n for st in cu for n in ast.walk(st) if isinstance(n, ast.Assign) and src(n.targets[0]) == "knots"]
@@ -127,14 +131,38 @@ def uniform_cubic_integrals(chk):
             why = f"not extractable: {e}"
     chk.ob("Q3-uniform-cubic", kn[0] if kn else ifs[0], "auxiliary knots and test point share one origin", ok, why, file=U.SPLINES,
            func="BSplines._build_integrals")
-    okb = contains(cu, "for i in range(3):\n    step = dx * (1 - sum(values[:3 - i]))\n    self._integrals[i] = step\n    self._integrals[-i - 1] = step")
-    chk.ob("Q3-uniform-cubic", ifs[0], "boundary integrals mirrored on both ends", okb, "the three boundary integrals are written symmetrically "
-           "at both ends" if okb else "boundary integral assignment changed", file=U.SPLINES, func="BSplines._build_integrals")
+    okb = contains(cu, "for i in range(3):\n    outside = dx * sum(values[:3 - i])\n    self._integrals[i] -= outside\n    self._integrals[-i - 1] -= outside")
+    old_b_form = contains(cu, "for i in range(3):\n    step = dx * (1 - sum(values[:3 - i]))\n    self._integrals[i] = step\n    self._integrals[-i - 1] = step")
+    chk.pat("Q3-uniform-cubic", ifs[0], "boundary functions lose the part outside the domain, symmetrically, by subtraction", okb,
+            "the three functions cut by each boundary lose dx x (the mass outside), subtracted at both ends so that a function cut by "
+            "both boundaries (1 or 2 cells) loses both parts",
+            ("the boundary integrals are assigned, not reduced: with one or two cells the assignments of the two ends overwrite each "
+             "other and the stored integrals (hence the weights) are wrong") if old_b_form and not okb else None,
+            file=U.SPLINES, func="BSplines._build_integrals")
+    # general branch: one formula for every unwrapped function, the wrapped copies of a periodic space included
     gen = ifs[0].orelse
-    okw = contains(gen, "if self.periodic:\n    for i in range(d):\n        self._integrals[n + i] = self._integrals[d - i - 1]")
-    chk.ob("Q3-integrals-storage", ifs[0], "general periodic: wrapped copies stored after the n-th entry", okw,
-           "(storage only; the values themselves are the declined numerical part)" if okw else "storage of the wrapped integrals changed",
-           file=U.SPLINES, func="BSplines._build_integrals", nontrivial=False)
+    loops = [n for n in gen if isinstance(n, ast.For)]
+    okw, badw = False, None
+    if loops and isinstance(loops[0].iter, ast.Call) and src(loops[0].iter.func) == "range" and len(loops[0].iter.args) == 1:
+        from ..core import same_expr
+        rng = loops[0].iter.args[0]
+        stores = [n for n in ast.walk(loops[0]) if isinstance(n, ast.Assign) and src(n.targets[0]) == "self._integrals[i]"]
+        if same_expr(rng, "self.ncells + d") and len(stores) == 1:
+            okw = True
+        elif src(rng) in ("n", "self.nbasis"):
+            mirror = [n for st in gen for n in ast.walk(st) if isinstance(n, ast.Assign) and isinstance(n.targets[0], ast.Subscript)
+                      and src(n.targets[0].value) == "self._integrals" and isinstance(n.value, ast.Subscript)
+                      and src(n.value.value) == "self._integrals"]
+            if mirror:
+                badw = (f"`{src(mirror[0])}` copies the integrals of the wrapped functions from the first ones in reverse order: that "
+                        "is their value only when the break points are symmetric (uniform grids); on a periodic non-uniform space "
+                        "the stored integrals, and the quadrature weights, are wrong (weights do not sum to the domain length)")
+            else:
+                badw = ("only the first nbasis integrals are computed: on a periodic space the wrapped functions ncells..ncells+d-1 "
+                        "keep uninitialised values")
+    chk.pat("Q3-integrals-storage", loops[0] if loops else ifs[0], "general: for i in range(self.ncells + d) with one formula", okw,
+            "every unwrapped basis function, the wrapped copies of a periodic space included, is integrated by the same antiderivative "
+            "identity", badw, file=U.SPLINES, func="BSplines._build_integrals")
 
 
 def run(chk):
@@ -142,8 +170,9 @@ def run(chk):
         "Narrow mechanism claim: quadrature weights are the transposed solve, with the interpolation factorisation, of the stored "
         "basis integrals (periodic: integrals of the wrapped copies folded onto the first p entries of a copy); the stored integrals "
         "are not mutated; uniform-cubic interior integrals are dx and the auxiliary construction of the boundary integrals is "
-        "translation invariant. Correctness of the integrals of non-uniform periodic spaces and of 1-2 cell uniform cubic spaces "
-        "(the defects quoted in the property) is numerical and is not claimed.")
+        "translation invariant; boundary integrals of the clamped uniform cubic case are reduced (not assigned) at both ends; the "
+        "general branch integrates every unwrapped function, wrapped copies included, by one formula. The antiderivative identity "
+        "itself is numerical and is not re-derived.")
     chk.in_file(U.INTERP)
     weights_mechanism(chk)
     uniform_cubic_integrals(chk)
